@@ -151,3 +151,26 @@ Print Assumptions C17_linear_time_abstracts_difference.
 Theorem C17_difference_asserts_wrongly_otherwise : stmt_abs_diff_dt_refuted.
 Proof. exact abs_diff_dt_refuted. Qed.
 Print Assumptions C17_difference_asserts_wrongly_otherwise.
+
+(** From the text of the listing: the times are still strings (TextLoad.v); the repaired loader's reading of a time is the
+    conversion the checks use for the model's seconds, comparing two loaded times in the code's derived order is comparing
+    those seconds, and a listing whose times DateTime::new accepts and whose references resolve loads. *)
+From RS Require Import TextLoad TextLoadStmts TextLoadFacts.
+Theorem C17_model_seconds_are_the_loaders_points : stmt_read_time_is_rel_seconds.
+Proof. exact read_time_is_rel_seconds. Qed.
+Print Assumptions C17_model_seconds_are_the_loaders_points.
+Theorem C17_loaded_times_compare_as_model_seconds : stmt_read_time_order.
+Proof. exact read_time_order. Qed.
+Print Assumptions C17_loaded_times_compare_as_model_seconds.
+Theorem C17_arrival_on_points_and_on_seconds : stmt_read_time_add.
+Proof. exact read_time_add. Qed.
+Print Assumptions C17_arrival_on_points_and_on_seconds.
+Theorem C17_text_listing_becomes_raw_listing : stmt_to_raw_total.
+Proof. exact to_raw_total. Qed.
+Print Assumptions C17_text_listing_becomes_raw_listing.
+Theorem C17_refused_time_string_panics : stmt_to_raw_bad_time.
+Proof. exact to_raw_bad_time. Qed.
+Print Assumptions C17_refused_time_string_panics.
+Theorem C17_text_listing_loads : stmt_load_text_total.
+Proof. exact load_text_total. Qed.
+Print Assumptions C17_text_listing_loads.
